@@ -521,9 +521,9 @@ func checkC01(p *core.Program, r *core.Report) {
 	checkRevocation(p, r, R5, R5)
 	// R7: the SKI the trust predicates are asked about is the one the peer proved (rule shared with C02.R1)
 	const R7 = "C01.R7 trusted-identity-is-proven"
-	r.Rule(R7, "the inbound connection is created under the SKI extracted from the first certificate of this request's TLS state - the only one whose key the peer proved possession of (shared with C02.R1)")
-	checkInboundIdentity(p, r, R7, "")
-	r.Floor(R7, 2)
+	r.Rule(R7, "the SKI under which a connection is created - and the trust predicates are asked about - is the peer's proven one: extracted from the first certificate of this connection's TLS state, bound to that certificate's public key, compared with the dialled SKI on every dial attempt, with every refusing branch closing the socket (rules shared with C02.R1/R2/R4)")
+	importRules(p, r, "C02", map[string]string{"C02.R1 identity-provenance": R7, "C02.R2 refusal-order": R7, "C02.R4 ski-bound-to-key": R7}, nil)
+	r.Floor(R7, 10)
 }
 
 // fsmTerminalRules: (R3) timer stopped when a path enters a terminal or the
